@@ -165,7 +165,7 @@ func (m *Monitors) convChecks() {
 	// the next attempt may come as late as the follower had been unreachable: the fault phase lasted t0, hence
 	// the allowance of t0 on top of the bound (a tighter bound would demand more than the property states).
 	if w.now() > t0+convBound+t0 {
-		if !(w.vals["probed"] == 1 && w.converged()) && !m.convReached {
+		if !(w.vals["probed"] == 1 && w.convergedState()) && !m.convReached {
 			m.convFlagged = true
 			why := "no leader"
 			if l := w.leader(); l != nil {
@@ -173,7 +173,7 @@ func (m *Monitors) convChecks() {
 			}
 			m.fail("C12", "no-convergence-within-bound", "faults stopped at %v after a fault phase of that length; at %v (more than %v + %v later) not every running member has caught up: %s", t0, w.now(), convBound, t0, why)
 		}
-	} else if w.vals["probed"] == 1 && w.converged() {
+	} else if w.vals["probed"] == 1 && w.convergedState() {
 		m.convReached = true
 	}
 }
